@@ -33,6 +33,16 @@ MI  multi-invocation scenarios (cc.realize_steps): ONE scheduler object is invok
     rebuilt and planned again; BatchGurobiView / BatchCplexView map per-task plans to the
     BatchTask variables of the captured model), mi-queue (Clockwork, EDF, FIFO: a waiting task
     whose deadline passes while the worker is busy), mi-rnd (seeded random scenarios).
+CWQ Clockwork request queues over 3-5 invocations (mi-cwq directed, mi-cwq-rnd seeded random histories): one or two
+    models with 2-3 strategies (batch sizes 1 / 2 / 4, different runtimes, listed fastest or slowest first), the worker
+    held by a RUNNING task of another model for a while, a request whose deadline lies on the boundary of each strategy
+    at each invocation time (it runs out of time for the slow strategies first, for the faster ones later, is hopeless
+    in the end), loose requests that fill the batches, later arrivals with looser deadlines.  EVERY answer is judged:
+    the strategy chosen for each placed request finishes by its deadline, a hopeless request is cancelled and not
+    placed, one answer never cancels AND places a task (C12.cancelled_and_placed: decision field `c`).
+VAR admit-multi (a worker's capacity listed under several resource ids of one name), admit-units / busy-units (the
+    instance on a clock 1000 times coarser, runtimes / deadlines / release / now / discretisation handed to the code
+    in different EventTime units, same microsecond values) for all six policies.
 """
 from __future__ import annotations
 
@@ -51,10 +61,10 @@ POLICIES = CANCEL + PLANNERS
 DELTAS = {"past": None, "tight-1": -1, "tight": 0, "tight+1": 1, "tight+2": 2, "loose": 9}
 
 CFG = {
-    "quick": dict(n_inst=44, chunks=8, pool_cap=80, pool_time=2, plan_cap=200, max_product=4000, tlc_timeout=300, worlds=12,
-                  judge_batch=700, agree_small=0,
-                  mi_scenarios=120, mi_random=32, mi_chunks=4, mi_pool_cap=24, mi_pool_time=0.4, mi_plan_cap=40, mi_max_product=2500, mi_r_max=7),
-    "thorough": dict(n_inst=100000, chunks=12, pool_cap=400, pool_time=4, plan_cap=4000, max_product=30000, tlc_timeout=3000, worlds=60,
+    "quick": dict(n_inst=62, chunks=9, cw_all=False, cw_random=40, cw_chunks=2, pool_cap=80, pool_time=2, plan_cap=200, max_product=4000, tlc_timeout=300, worlds=12,
+                  judge_batch=300, agree_small=0,
+                  mi_scenarios=120, mi_random=32, mi_chunks=6, mi_pool_cap=24, mi_pool_time=0.4, mi_plan_cap=40, mi_max_product=2500, mi_r_max=7),
+    "thorough": dict(n_inst=100000, chunks=12, cw_all=True, cw_random=1500, cw_chunks=4, pool_cap=400, pool_time=4, plan_cap=4000, max_product=30000, tlc_timeout=3000, worlds=60,
                      judge_batch=4000, agree_small=600,
                      mi_scenarios=100000, mi_random=800, mi_chunks=12, mi_pool_cap=120, mi_pool_time=1, mi_plan_cap=300, mi_max_product=8000, mi_r_max=40),
 }
@@ -84,6 +94,38 @@ def admission_instance(policy, skind, dk, workers, second, grid=1):
     if policy in ("TSG", "TSC") and dk == "loose":
         inst["opts"]["plan_ahead"] = inst["horizon"] - NOW
     return inst
+
+
+UNITS = (
+    {"rt": "MS", "deadline": "US", "release": "US", "now": "US", "grid": "US"},
+    {"rt": "US", "deadline": "MS", "release": "MS", "now": "MS", "grid": "MS"},
+    {"rt": "MS", "deadline": "US", "release": "MS", "now": "US", "cur": "MS", "grid": "MS"},
+)
+
+
+def variant_instances():
+    """two classes of inputs: workers that list a capacity under several resource ids of one name (`admit-multi`,
+    `busy-multi`); times handed to the code in mixed EventTime units, same microsecond values (`admit-units`, `busy-units`:
+    the instance on a clock 1000 times coarser, runtimes / deadlines / now in different units)"""
+    out = []
+    for policy in POLICIES:
+        for dk in DELTAS:
+            for skind in ("two", "twoE", "one"):
+                for split, workers in (("ones", [2]), ("uneven", [1, 2]), ("ones", [1, 2])):
+                    i = admission_instance(policy, skind, dk, workers, skind == "twoE")
+                    i["name"] = i["name"].replace("/admit/", "/admit-multi/") + f"/{split}"
+                    i["wsplit"] = split
+                    out.append(i)
+                for ux, units in enumerate(UNITS):
+                    i = cc.scale_times(admission_instance(policy, skind, dk, [2] if ux != 1 else [1, 2], ux == 2), 1000)
+                    i["name"] = i["name"].replace("/admit/", "/admit-units/") + f"/u{ux}"
+                    i["units"] = units
+                    out.append(i)
+            i = cc.scale_times(busy_instance(policy, dk), 1000)
+            i["name"] = i["name"].replace("/busy/", "/busy-units/")
+            i["units"] = UNITS[2]
+            out.append(i)
+    return out
 
 
 def busy_instance(policy, dk, grid=1):
@@ -189,6 +231,85 @@ def queue_scenario(policy, d_q, du, hopeless, shared, steps):
     return _mi(name, policy, tasks, [1], steps, horizon=steps[0] + 10)
 
 
+# Clockwork request queues over several invocations (second strengthening round).  One model with 2-3 strategies of
+# batch size 1 / 2 / 4 and different runtimes; the only worker is held by a RUNNING task of another model for a while, so
+# requests wait over 3-5 invocations: a request runs out of time for the slow strategies first and for the faster ones
+# later, others arrive later with looser deadlines.  EVERY answer is a judged record (the strategy chosen for each placed
+# request meets its deadline, a hopeless request is cancelled and not placed, never both).
+CW_MODELS = {
+    "m2": [{"dem": 1, "rt": 2, "bs": 1}, {"dem": 1, "rt": 4, "bs": 2}],
+    "m3": [{"dem": 1, "rt": 2, "bs": 1}, {"dem": 1, "rt": 4, "bs": 2}, {"dem": 1, "rt": 6, "bs": 4}],
+    "m3c": [{"dem": 1, "rt": 3, "bs": 1}, {"dem": 1, "rt": 4, "bs": 2}, {"dem": 1, "rt": 5, "bs": 4}],
+    # listed slowest first (the order of the queues inside the scheduler follows the profile)
+    "m3r": [{"dem": 1, "rt": 6, "bs": 4}, {"dem": 1, "rt": 4, "bs": 2}, {"dem": 1, "rt": 2, "bs": 1}],
+}
+
+
+def cw_queue_scenario(mk, free_at, d1, fill, late, steps):
+    """R1 (deadline d1) and `fill` loose requests of model M wait while the worker is held until `free_at`; `late`:
+    another request arrives before the third invocation with a looser deadline (d1 + 3) and one with a loose one"""
+    st = CW_MODELS[mk]
+    tasks = [
+        mk_task([], [{"dem": 1, "rt": free_at - (steps[0] - 1)}], state="RUN", release=0, deadline=60, graph="B", prof="X",
+                cur={"w": 1, "s": steps[0] - 1, "k": 1}),
+        mk_task([], st, state="REL", release=2, deadline=d1, graph="R1", prof="M"),
+    ]
+    for j in range(fill):
+        tasks.append(mk_task([], st, state="REL", release=1 + j % 2, deadline=40 + 3 * j, graph=f"F{j}", prof="M"))
+    if late and len(steps) >= 3:
+        tasks.append(mk_task([], st, deadline=d1 + 3, graph="N1", prof="M", phase=3, rel_at=steps[2]))
+        tasks.append(mk_task([], st, deadline=50, graph="N2", prof="M", phase=len(steps), rel_at=steps[-1]))
+    name = f"CW/mi-cwq/{mk}/f{free_at}/d{d1}/n{fill}{'/late' if late else ''}/t{'-'.join(map(str, steps))}"
+    return _mi(name, "CW", tasks, [1], steps, horizon=steps[0] + 10)
+
+
+def cw_directed_scenarios():
+    out = []
+    for mk in CW_MODELS:
+        for free_at in (5, 6, 7):
+            steps = sorted({3, 4, free_at - 1, free_at, free_at + 1})
+            for d1 in range(4, 15):
+                for fill, late in ((1, False), (3, True), (1, True), (4, False)):
+                    if (d1 + free_at + fill) % 2 and mk in ("m3c", "m3r"):
+                        continue
+                    out.append(cw_queue_scenario(mk, free_at, d1, fill, late, steps))
+    return out
+
+
+def cw_random_history(rnd, n):
+    """seeded: 1-2 models with 2-3 strategies, a held worker, 4-8 requests released over the invocations with deadlines
+    around the boundary of one of the strategies at one of the (later) invocation times"""
+    nsteps = rnd.choice([3, 4, 5])
+    steps = [3]
+    for _ in range(nsteps - 1):
+        steps.append(steps[-1] + rnd.choice([1, 1, 2]))
+    models = {"M": CW_MODELS[rnd.choice(sorted(CW_MODELS))]}
+    if rnd.random() < 0.4:
+        models["K"] = rnd.choice([CW_MODELS["m2"], [{"dem": 1, "rt": 3, "bs": 1}], [{"dem": 1, "rt": 1, "bs": 1}, {"dem": 1, "rt": 3, "bs": 2}]])
+    workers = rnd.choice([[1], [1], [1], [1, 1]])
+    tasks = []
+    for w in range(len(workers)):
+        if w == 0 or rnd.random() < 0.6:
+            free_at = rnd.choice(steps[1:]) + rnd.choice([0, 0, 1])
+            tasks.append(mk_task([], [{"dem": 1, "rt": free_at - (steps[0] - 1)}], state="RUN", release=0, deadline=90, graph=f"B{w}", prof=f"X{w}",
+                                 cur={"w": w + 1, "s": steps[0] - 1, "k": 1}))
+    for j in range(rnd.choice([4, 5, 6, 8])):
+        pn = rnd.choice(sorted(models)) if j else "M"
+        st = models[pn]
+        phase = 1 if j < 2 else rnd.choice([1, 1] + list(range(2, nsteps + 1)))
+        if rnd.random() < 0.35:
+            dl = rnd.choice([30, 40, 50]) + j
+        else:
+            # on the boundary of strategy k at a later invocation time
+            at = rnd.choice(steps[phase - 1:])
+            dl = at + rnd.choice(st)["rt"] + rnd.choice([-1, -1, 0, 0, 1, 2])
+        if phase == 1:
+            tasks.append(mk_task([], st, state="REL", release=rnd.choice([1, 2, 3]), deadline=dl, graph=f"G{j}", prof=pn))
+        else:
+            tasks.append(mk_task([], st, deadline=dl, graph=f"G{j}", prof=pn, phase=phase, rel_at=steps[phase - 1]))
+    return _mi(f"CW/mi-cwq-rnd/{n}", "CW", tasks, workers, steps, horizon=steps[0] + 10, salt=rnd.randrange(4))
+
+
 def directed_scenarios():
     out = []
     for policy in MI_PLANNERS:
@@ -284,6 +405,7 @@ def all_instances():
                 for dk in DELTAS:
                     for workers in ([2], [1, 2]):
                         out.append(chain_instance(policy, mode, dk, workers, skind))
+    out += variant_instances()
     return out
 
 
@@ -300,7 +422,7 @@ def quick_selection(insts, n, rnd):
         sel.append(c)
         names.add(c["name"])
     for policy in POLICIES:
-        for cls in ("busy", "chain"):
+        for cls in ("busy", "chain", "admit-multi", "admit-units", "busy-units"):
             cands = [i for i in insts if i["name"].startswith(f"{policy}/{cls}/") and i["name"] not in names]
             if cands:
                 c = rnd.choice(cands)
@@ -471,7 +593,10 @@ def e2e_call_records(o):
         for d in c["decs"] if ok else []:
             j = pos[d["t"]]
             if d["kind"] == 3:
-                dec[j] = {"kind": "cancel", "w": 0, "s": 0, "k": 0}
+                if dec[j]["kind"] == "place":
+                    dec[j]["c"] = True  # one answer cancels and places the task
+                    continue
+                dec[j] = {"kind": "cancel", "w": 0, "s": 0, "k": 0, "c": True}
             elif not d["placed"]:
                 if dec[j]["kind"] == "none":
                     dec[j] = {"kind": "unplaced", "w": 0, "s": 0, "k": 0}
@@ -481,7 +606,7 @@ def e2e_call_records(o):
                 if k == 0 or d["wk"] > len(caps):
                     ok = False
                     break
-                dec[j] = {"kind": "place", "w": max(1, d["wk"]), "s": d["tm"], "k": k}
+                dec[j] = {"kind": "place", "w": max(1, d["wk"]), "s": d["tm"], "k": k, "c": dec[j]["kind"] == "cancel"}
         if not ok:
             skipped += 1
             continue
@@ -545,14 +670,28 @@ def run(tier: str) -> CheckResult:
     rr = rng("c12-mi-rnd")
     scns += [random_scenario(rr, n) for n in range(cfg["mi_random"])]
     scns.sort(key=lambda i: (i["policy"], i["name"]))
+    # Clockwork request queues over 3-5 invocations: chunks of their own (no solver model: cheap), every answer judged
+    cw = cw_directed_scenarios()
+    n_cw_directed = len(cw)
+    if not cfg["cw_all"]:
+        # one (fill, late arrival) variant per model x time the worker is released x deadline of the waiting request
+        pick, by = rng("c12-cwq"), {}
+        for i in cw:
+            by.setdefault(tuple(i["name"].split("/")[2:5]), []).append(i)
+        cw = [pick.choice(by[k]) for k in sorted(by)]
+    rc = rng("c12-cwq-rnd")
+    cw += [cw_random_history(rc, n) for n in range(cfg["cw_random"])]
     mi_cfg = dict(cfg, pool_cap=cfg["mi_pool_cap"], pool_time=cfg["mi_pool_time"], plan_cap=cfg["mi_plan_cap"], max_product=cfg["mi_max_product"], r_from_invocation=2,
                   r_max_instances=cfg["mi_r_max"])
     mi_parts = [scns[k::cfg["mi_chunks"]] for k in range(cfg["mi_chunks"])]
-    jobs += [("chunk", f"c12/mi{k}", p, mi_cfg) for k, p in enumerate(mi_parts) if p]
+    # (the multi-invocation chunks are the long ones: first in the queue of the process pool)
+    jobs = [("chunk", f"c12/mi{k}", p, mi_cfg) for k, p in enumerate(mi_parts) if p] + jobs
+    jobs += [("chunk", f"c12/cw{k}", cw[k::cfg["cw_chunks"]], dict(cfg, pool_cap=0, plan_cap=0)) for k in range(cfg["cw_chunks"]) if cw[k::cfg["cw_chunks"]]]
+    scns = scns + cw
     worlds_ = e2e_worlds(cfg["worlds"], rng("c12-e2e"))
     jobs += [("e2e", w) for w in worlds_]
     t0 = time.time()
-    outs_all = parallel(_job, jobs, procs=min(16, cfg["chunks"] + cfg["mi_chunks"] + 2))
+    outs_all = parallel(_job, jobs, procs=min(16, cfg["chunks"] + cfg["mi_chunks"] + cfg["cw_chunks"] + 1))
     t_jobs = time.time() - t0
     outs = [o for j, o in zip(jobs, outs_all) if j[0] == "chunk"]
     e2e = [o for j, o in zip(jobs, outs_all) if j[0] == "e2e"]
@@ -597,7 +736,7 @@ def run(tier: str) -> CheckResult:
         bp["completed"] += done
         bp["tasks"] += len(o["tasks"])
     t0 = time.time()
-    fails, stats, truns = cc.judge_parallel(recs, batch=cfg["judge_batch"], procs=cfg["chunks"])
+    fails, stats, truns = cc.judge_parallel(recs, batch=min(cfg["judge_batch"], max(100, -(-len(recs) // 14))), procs=14)
     t_judge = time.time() - t0
     for tr in truns:
         res.states += tr["distinct"]
@@ -669,6 +808,16 @@ def run(tier: str) -> CheckResult:
     res.extra.update({
         "multi_invocation": {
             "directed_scenarios_defined": n_directed, "scenarios_run": len(scns),
+            "clockwork_queue_scenarios": {
+                "directed_defined": n_cw_directed, "run": len(cw), "seeded_random_histories": cfg["cw_random"],
+                "by_model": {m: sum(1 for i in cw if i["name"].split("/")[2] == m) for m in sorted(CW_MODELS)},
+                "by_number_of_invocations": {str(k): sum(1 for i in cw if len(i["steps"]) == k) for k in (3, 4, 5)},
+                "answers_judged": sum(1 for r in recs if r["src"] == "returned" and "/mi-cwq" in r["inst"]["name"]),
+                "answers_that_place": sum(1 for r in recs if r["src"] == "returned" and "/mi-cwq" in r["inst"]["name"]
+                                          and any(d["kind"] == "place" for d in r["dec"])),
+                "answers_that_cancel": sum(1 for r in recs if r["src"] == "returned" and "/mi-cwq" in r["inst"]["name"]
+                                           and any(d["kind"] == "cancel" for d in r["dec"])),
+            },
             "scenarios_by_policy": {
                 p: sum(1 for i in scns if i["policy"] == p) for p in sorted({i["policy"] for i in scns})
             },
@@ -693,6 +842,9 @@ def run(tier: str) -> CheckResult:
         },
         "instances": len(insts),
         "instances_by_policy": {p: sum(1 for i in insts if i["policy"] == p) for p in POLICIES},
+        "instances_by_class": {c: sum(1 for i in insts if i["name"].split("/")[1] == c) for c in sorted({i["name"].split("/")[1] for i in insts})},
+        "instances_with_capacity_under_several_resource_ids": sum(1 for i in insts if i.get("wsplit")),
+        "instances_in_mixed_time_units": sum(1 for i in insts if i.get("units")),
         "records_returned": sum(1 for r in recs if r["src"] == "returned"),
         "records_pool": sum(1 for r in recs if r["src"] == "pool"),
         "records_e2e": sum(1 for r in recs if r["src"] == "e2e"),
@@ -734,7 +886,9 @@ def run(tier: str) -> CheckResult:
         "returning; no pool enumeration with the CPLEX community edition); Z3 is not part of C12 (its deadline constraint is soft); "
         "multi-invocation scenarios of ILP / TetriSched-Gurobi / TetriSched-CPLEX / Clockwork / EDF / FIFO (every invocation judged, "
         "T2 + R on the models of the later invocations), batching=True for ILP and TetriSched-CPLEX (BatchTask variables of the "
-        "captured models); every scheduler invocation of the simulated worlds"
+        "captured models); every scheduler invocation of the simulated worlds; Clockwork request queues over 3-5 invocations with "
+        "2-3 strategies per model and a held worker (directed + seeded random histories, every answer judged); workers with a capacity "
+        "listed under several resource ids; times handed over in mixed EventTime units"
     )
     res.assumptions += [
         "TLC; Gurobi's INFEASIBLE answers on models with all decision variables fixed; pools are samples (cap in constants)",
